@@ -88,6 +88,19 @@ func runQuorum(o *Opts) *Summary {
 		flush("built")
 	}
 
+	// (d) validator sets in which two members have the same 32-bit peer ID
+	wc := NewWorld(o.Seed, 2)
+	wc.SetKey(1, collidingKeyA)
+	wc.SetKey(2, collidingKeyB)
+	for n := 2; n <= 12; n++ {
+		list := []*peers.Peer{wc.parts[0].Peer, wc.parts[1].Peer}
+		list = append(list, pool[:n-2]...)
+		ps := peers.NewPeerSet(list)
+		rows = append(rows, []int{n, ps.SuperMajority(), ps.TrustCount(), ps.Len()})
+		s.Steps++
+	}
+	flush("colliding-ids")
+
 	// (c) acceptance decisions for n = 1..10 and k = 0..n real signatures
 	acc := []interface{}{}
 	for n := 1; n <= 10; n++ {
